@@ -100,9 +100,13 @@ func linkValidator(c *Checker, rule string) (*ssa.Function, *unpackCtx) {
 	if u == nil {
 		return nil, nil
 	}
-	for _, ci := range callsTo(u.Unpack, func(o *types.Func) bool { return isFunc(o, "os", "Symlink") }) {
-		if v := c.P.validatorCallGuarding(ci); v != nil {
-			return v.Common().StaticCallee(), u
+	// in Unpack itself or in one of its private helpers
+	fam := c.P.family(u.Unpack)
+	for _, fn := range sortedFuncs(fam) {
+		for _, ci := range callsTo(fn, func(o *types.Func) bool { return isFunc(o, "os", "Symlink") }) {
+			if v := c.P.validatorCallGuarding(ci); v != nil {
+				return v.Common().StaticCallee(), u
+			}
 		}
 	}
 	return nil, u
@@ -124,8 +128,8 @@ func ruleC04Guard(c *Checker) {
 		n++
 		fn := p.FuncName(s.Fn)
 		pos := p.Pos(s.Call.Pos())
-		if s.Fn != u.Unpack {
-			c.fail(R, fn, "link creation outside Unpack", pos, "a link is created in a helper; the validator guard cannot be matched to it")
+		if s.Fn != u.Unpack && !p.family(u.Unpack)[s.Fn] {
+			c.fail(R, fn, "link creation outside Unpack", pos, "a link is created in a function that is not a private helper of Unpack; the validator guard cannot be matched to it")
 			continue
 		}
 		v := p.validatorCallGuarding(s.Call)
@@ -141,7 +145,7 @@ func ruleC04Guard(c *Checker) {
 			if sameLoc(a, target) {
 				sameTarget = true
 			}
-			if prm, ok := canon(a).(*ssa.Parameter); ok && prm.Parent() == u.Unpack && isStringType(prm.Type()) {
+			if prm, ok := p.canonX(a).(*ssa.Parameter); ok && prm.Parent() == u.Unpack && isStringType(prm.Type()) {
 				// the dst parameter: the one given to the constructor too
 				for _, ca := range u.CtorCall.Call.Args {
 					if canon(ca) == ssa.Value(prm) {
@@ -160,7 +164,7 @@ func ruleC04Guard(c *Checker) {
 				if !isStringType(a.Type()) || sameLoc(a, target) {
 					continue
 				}
-				if prm, ok := canon(a).(*ssa.Parameter); ok && prm.Parent() == u.Unpack {
+				if prm, ok := p.canonX(a).(*ssa.Parameter); ok && prm.Parent() == u.Unpack {
 					continue // dst
 				}
 				posArg = a
@@ -189,7 +193,7 @@ func ruleC04Guard(c *Checker) {
 		c.check(hasDst, R, fn, "validator root = dst", pos, "the validator's root is Unpack's destination parameter", "the validator is not rooted at the destination directory")
 		// rejected edge returns the validator's error
 		b0 := extractOf(v, 0)
-		_, fE := boolEdges(u.Unpack, b0)
+		_, fE := boolEdges(s.Fn, b0)
 		okRej := len(fE) > 0
 		for _, e := range fE {
 			if okr, _ := returnsNonNilErrorFrom(e.To()); !okr {
@@ -276,6 +280,75 @@ func ruleC04Accept2(id string) func(*Checker) {
 				if h := p.acceptingHelperGuarding(g, r.Block()); h != nil {
 					okh, why := p.helperAcceptsSoundly(h)
 					c.check(okh, id, gname, fmt.Sprintf("return true %d", i), p.Pos(r.Pos()), "accepted by helper "+p.FuncName(h)+", each of whose accepting returns is guarded by a sound containment or an exact match", "the validator accepts through helper "+p.FuncName(h)+": "+why)
+					continue
+				}
+			}
+			// the decision may be carried in a boolean variable: every way the flag guarding this
+			// return became true must be a sound containment test or an exact string match
+			if est == nil {
+				var flag ssa.Value
+				for _, b := range g.Blocks {
+					ifi, ok := b.Instrs[len(b.Instrs)-1].(*ssa.If)
+					if !ok {
+						continue
+					}
+					cond, _ := stripNot(ifi.Cond)
+					if _, isPhi := cond.(*ssa.Phi); !isPhi {
+						continue
+					}
+					tE, _ := boolEdges(g, cond)
+					if guarded(r.Block(), tE) {
+						flag = cond
+					}
+				}
+				if flag != nil {
+					rs, okF := flagReasons(flag, map[ssa.Value]bool{})
+					why := ""
+					okAll := okF && len(rs) > 0
+					if !okF {
+						why = "the flag can become true in a way that is not a test"
+					}
+					var tgt *ssa.Parameter
+					if n := len(g.Params); n > 0 {
+						tgt = g.Params[n-1]
+					}
+					for _, fr := range rs {
+						switch x := fr.Cond.(type) {
+						case *ssa.Call:
+							found := false
+							for j := range ks {
+								if ks[j].At == ssa.Instruction(x) {
+									found = true
+									if !ks[j].Sound {
+										okAll, why = false, "unsound containment test: "+ks[j].Why
+									}
+									if !cleanedValue(ks[j].Subject, map[ssa.Value]bool{}) || (tgt != nil && !p.backSlice(ks[j].Subject, 0)[tgt]) {
+										okAll, why = false, "the containment test is applied to the raw (uncleaned) target or to a value that does not depend on the target"
+									}
+									if ks[j].Root != nil {
+										if !cleanRoot(ks[j].Root, map[ssa.Value]bool{}) {
+											okAll, why = false, "the cleaned target is compared with a root that is not lexically clean on every path"
+										}
+										for v := range p.backSlice(ks[j].Root, 0) {
+											if prm, ok := v.(*ssa.Parameter); ok && prm.Parent() == g && isStringType(prm.Type()) && prm != tgt {
+												rootSeen = true
+											}
+										}
+									}
+								}
+							}
+							if !found {
+								okAll, why = false, "the flag is set by a call that is not a recognised containment test"
+							}
+						case *ssa.BinOp:
+							if !(x.Op == token.EQL && isStringType(x.X.Type())) {
+								okAll, why = false, "the flag is set by a comparison that is not a string equality"
+							}
+						default:
+							okAll, why = false, "the flag is set by an unrecognised condition"
+						}
+					}
+					c.check(okAll, id, gname, fmt.Sprintf("return true %d", i), p.Pos(r.Pos()), "guarded by a boolean that can only have become true through sound containment tests of the cleaned target or exact matches", "the validator accepts on a flag: "+why)
 					continue
 				}
 			}
@@ -670,6 +743,13 @@ func cleanRoot(v ssa.Value, seen map[ssa.Value]bool) bool {
 			}
 		}
 		return true
+	case *ssa.Call:
+		// TrimSuffix(root, sep): still clean (the separator is put back by the caller)
+		if isFunc(calleeObj(x), "strings", "TrimSuffix") || isFunc(calleeObj(x), "strings", "TrimRight") {
+			if sp, ok := constString(x.Call.Args[1]); ok && isSepString(sp) {
+				return cleanRoot(x.Call.Args[0], seen)
+			}
+		}
 	case *ssa.Extract:
 		if _, ok := x.Tuple.(*ssa.Next); ok {
 			return true // an allow-list entry: absolute entries are the caller's responsibility, relative ones are joined
